@@ -188,6 +188,25 @@ class Evaluator:
                 return new
             except (TypeError, IndexError, KeyError) as e:
                 raise Crash(type(e).__name__, show(t))
+        if h == "raised":
+            # did the guarded call of try statement t[1] raise something its handler catches?
+            info = getattr(self.sx, "tries", {}).get(t[1])
+            if info is None or info.get("call_term") is None:
+                raise EvalUnsupported("outcome of the guarded call of a try statement")
+            caught = [x.strip() for x in (info["type"] or "BaseException").strip("()").split(",")]
+            try:
+                self.ev(info["call_term"], loc)
+            except Crash as c:
+                if c.kind in caught or "Exception" in caught or "BaseException" in caught:
+                    return True
+                raise
+            return False
+        if h == "repeat":
+            a_, n_ = self.ev(t[1], loc), self.ev(t[2], loc)
+            try:
+                return a_ * n_
+            except TypeError:
+                raise Crash("TypeError", show(t))
         if h == "cat":
             a_, b_ = self.ev(t[1], loc), self.ev(t[2], loc)
             try:
